@@ -146,8 +146,7 @@ func runSchedule(c *vctx, a *vAgent, g *gate, mode string, dflt uint, batch []*c
 // system of lean/Whawty/Model/Agent.lean: requests are enqueued as early as the channel
 // capacities allow (FIFO per channel = execution order per channel), then selected in the
 // observed order.
-func buildLabels(res *schedResult, mode string) {
-	caps := map[string]int{"auth": 10, "update": 10, "other": 10}
+func buildLabels(res *schedResult, mode string, caps map[string]int) {
 	qlen := map[string]int{}
 	byChan := map[string][]*execd{}
 	for _, e := range res.order {
@@ -290,7 +289,8 @@ func suiteV10(c *vctx) {
 		// the batch: the deadlock-witness family (9..14 pending updates x upgradeable logins) and random mixes
 		var batch []*creq
 		id := 1
-		nUpd := r.Pick(0, 3, 9, 10, 11, 14)
+		cu := cap(a.st.updateChan) // the witness family sits around the live capacity of the update queue
+		nUpd := r.Pick(0, 3, cu-1, cu, cu+1, cu+4)
 		nAuth := 1 + r.Intn(4)
 		for k := 0; k < nUpd; k++ {
 			u := users[r.Intn(len(users))]
@@ -340,9 +340,15 @@ func suiteV10(c *vctx) {
 		case <-time.After(wd):
 			c.emit("law.C10.agent_keeps_accepting "+desc, "f")
 		}
-		buildLabels(res, mode2(mode))
+		// the live capacities of the agent's queues (the model is parametric in them)
+		caps := map[string]int{"auth": cap(a.st.authenticateChan), "update": cap(a.st.updateChan), "other": cap(a.st.addChan)}
+		remoteCap := 10
+		if a.st.upgradeChan != nil {
+			remoteCap = cap(a.st.upgradeChan)
+		}
+		buildLabels(res, mode2(mode), caps)
 		answered := len(res.reqs)
-		c.emit(fmt.Sprintf("agent.sched %s 10 10 10 10 32 %s", map[string]string{"off": "off", "local": "localNonBlocking", "remote": "remote"}[modeTok], strings.Join(res.labels, ",")),
+		c.emit(fmt.Sprintf("agent.sched %s "+fmt.Sprintf("%d %d %d %d %d", caps["auth"], caps["update"], caps["other"], remoteCap, cap(a.st.hooks.Notify))+" %s", map[string]string{"off": "off", "local": "localNonBlocking", "remote": "remote"}[modeTok], strings.Join(res.labels, ",")),
 			fmt.Sprintf("ok %d %s", answered, strings.Join(res.executed, ",")))
 		os.RemoveAll(a.dirPath)
 	}
